@@ -160,6 +160,9 @@ func RunImportCase(ic ImportCase) (out outcome) {
 
 func (c ImportCase) NumImports() int {
 	if c.Batch == "each" {
+		if c.Case.Assign != "" {
+			return 3
+		}
 		return len(c.Case.Cuts) + 1
 	}
 	return 1
@@ -179,6 +182,7 @@ func (c ImportCase) NumImports() int {
 //	2 deviations under the default interleaving as one file.
 func EnumCases(tier string) (cases []ImportCase, rule string) {
 	thorough := tier == "thorough"
+	threeTouching := 0
 	if thorough {
 		// the long-running items first: captures large enough to make the importer use snapshots
 		for _, set := range ref.Sets() {
@@ -228,6 +232,25 @@ func EnumCases(tier string) (cases []ImportCase, rule string) {
 						}
 						lo, hi = max(1, a), min(n-1, b+1)
 					}
+					// three files, the first two touching (equal timestamps across the first cut), imported
+					// one by one: the third import has to replay two known captures whose time ranges meet
+					if len(devs) == 0 && link == "eth" && (ili == 0 || thorough) {
+						for c1 := 1; c1 < n-1; c1++ {
+							for c2 := c1 + 1; c2 < n; c2++ {
+								if !thorough && (c2-c1 > 3 && c2 != n-1) {
+									continue
+								}
+								cc := base
+								cc.Devs = []ref.Dev{{Kind: "tie", I: c1 - 1}}
+								cc.Cuts = []int{c1, c2}
+								if _, err := ref.Build(cc); err != nil {
+									continue // tie across an idle gap
+								}
+								cases = append(cases, ImportCase{Case: cc, Batch: "each"})
+								threeTouching++
+							}
+						}
+					}
 					for c := lo; c <= hi; c++ {
 						cc := base
 						cc.Cuts = []int{c}
@@ -257,6 +280,7 @@ func EnumCases(tier string) (cases []ImportCase, rule string) {
 		rule += "quick: default rendering x every permitted interleaving x {eth, raw link} x {one file; cut at every position, imported one by one and in one call}; " +
 			"every rendering with 1 deviation (default interleaving) x {one file; cut at every position from just before the first to just after the second of the two packets the deviation is about, imported one by one}. "
 	}
+	rule += fmt.Sprintf("Both tiers: default renderings cut into three files whose first two touch (equal timestamps across the first cut), imported one by one (%d cases; quick: second cut at most 3 packets after the first, or before the last packet). ", threeTouching)
 	rule += "non-trivial = at least one deviation or at least two files"
 	return
 }
